@@ -475,7 +475,23 @@ Definition secondary_write_offset (g : gpt) : Z :=
 Record hybrid := mk_hy { hy_ih : isohybrid; hy_pri : gpt; hy_sec : gpt }.
 
 Definition GUIDS : Type := (list Z * list Z * list Z * list Z)%type.
-(* new(): when efi, primary_gpt.new(mac) then secondary_gpt.new(mac) (8 uuid4() calls) *)
+
+Definition ghdr_set_disk_guid (g : gpt_header) (v : list Z) : gpt_header :=
+  mk_ghdr (gh_current_lba g) (gh_backup_lba g) (gh_first_usable g) (gh_last_usable g) v (gh_pe_lba g)
+          (gh_num_parts g) (gh_size_pe g).
+Definition gpart_set_guid (p : gpt_part) (v : list Z) : gpt_part :=
+  mk_gpart (gp_type_guid p) v (gp_first_lba p) (gp_last_lba p) (gp_attributes p) (gp_name p).
+(* for primary_part, secondary_part in zip(primary.parts, secondary.parts):
+       secondary_part.part_guid = primary_part.part_guid *)
+Fixpoint copy_part_guids (pri sec : list gpt_part) : list gpt_part :=
+  match pri, sec with
+  | p :: pr, s :: sr => gpart_set_guid s (gp_guid p) :: copy_part_guids pr sr
+  | _, _ => sec
+  end.
+
+(* new(): when efi, primary_gpt.new(mac) then secondary_gpt.new(mac) (8 uuid4() calls: pg then sg),
+   then the secondary header's disk_guid and every secondary part_guid are overwritten with the
+   primary's -- the four GUIDs of [sg] are generated and discarded *)
 Definition hy_new (efi mac : bool) (part_entry mbr_id part_offset geometry_sectors geometry_heads part_type : Z)
     (pg sg : GUIDS) : option hybrid :=
   match ih_new efi mac part_entry mbr_id part_offset geometry_sectors geometry_heads part_type with
@@ -483,7 +499,13 @@ Definition hy_new (efi mac : bool) (part_entry mbr_id part_offset geometry_secto
   | Some h =>
       let '(pd, p1, p2, p3) := pg in
       let '(sd, s1, s2, s3) := sg in
-      if efi then Some (mk_hy h (gpt_new true mac pd p1 p2 p3) (gpt_new false mac sd s1 s2 s3))
+      if efi then
+        let pri := gpt_new true mac pd p1 p2 p3 in
+        let sec := gpt_new false mac sd s1 s2 s3 in
+        let sec := mk_gpt (g_primary sec)
+                          (ghdr_set_disk_guid (g_header sec) (gh_disk_guid (g_header pri)))
+                          (copy_part_guids (g_parts pri) (g_parts sec)) (g_apm sec) in
+        Some (mk_hy h pri sec)
       else Some (mk_hy h (mk_gpt true (mk_ghdr 0 0 0 0 [] 0 0 0) [] [])
                          (mk_gpt false (mk_ghdr 0 0 0 0 [] 0 0 0) [] []))
   end.
